@@ -10,6 +10,7 @@ import Req.H1.BodyWrite
 import Req.H2.BodyWire
 import Req.Client.AttemptOrder
 import Req.H1.RoundTrip
+import Req.H1.ExpectContinue
 import Req.Client.Replay
 import Req.Props.C01ConnSeq
 import Req.Driver.L.C16
@@ -216,6 +217,17 @@ def laneSend : List String → String
         else
           if order.isEmpty then "ok " ++ Wire.showBlob wire
           else Wire.showOrdered wire order
+  | _ => "bad-op"
+
+/-- `c01expect <Request.Close> <response Connection: close>` (round 7): a request with a body and
+`Expect: 100-continue` whose head was answered with a FINAL status before 100 Continue — does the
+write loop send the body, may the connection carry another request (`Req.H1.Expect`). -/
+def laneExpect : List String → String
+  | [rc, pc] =>
+    match Wire.decodeBool rc, Wire.decodeBool pc with
+    | some rc, some pc =>
+      s!"body={b01 (Req.H1.Expect.sendsBody rc (.final pc))} reuse={b01 (Req.H1.Expect.reusable rc pc)}"
+    | _, _ => "bad-op"
   | _ => "bad-op"
 
 /-- cookies: `name:value:q,…` (hex, q = 0/1) or `-`. -/
@@ -587,6 +599,7 @@ def lanes : List (String × (List String → String)) := [
   ("c01h1retry", laneH1Retry),
   ("c01h3retry", laneH3Retry),
   ("c01send", laneSend),
+  ("c01expect", laneExpect),
   ("c01h2body", laneH2Body),
   ("c01h3body", laneH3Body),
   ("c01h1body", laneH1Body),
